@@ -290,15 +290,25 @@ def _unordered(x):
     return x
 
 
+def _has_unescaped_quote(d, q):
+    def walk(x):
+        if isinstance(x, dict):
+            return any(walk(v) for v in x.values())
+        if isinstance(x, (list, tuple)):
+            return any(walk(v) for v in x)
+        return isinstance(x, str) and re.search(r"(?<!\\)" + re.escape(q), x) is not None
+    return walk(d)
+
+
 def b_idempotent(tier, seed):
     m = api()
     fails, n = [], 0
     docs = _docs_as_dicts(tier, seed, 150 if tier != "thorough" else None)
     for key, d in docs:
-        if _has_quote_inside(d, '"'):
+        if _has_unescaped_quote(d, '"'):
             continue
         for o in ([{}] + option_sets(tier, seed, 1)[:2 if tier != "thorough" else 6]):
-            if _has_quote_inside(d, o.get("quote", '"')) or (o.get("newlinechar") == " "):
+            if _has_unescaped_quote(d, o.get("quote", '"')) or (o.get("newlinechar") == " "):
                 continue
             n += 1
             try:
